@@ -202,6 +202,7 @@ EMonStep(m, ev) ==
   CASE ev.ev = "NE" -> EMonNew(m, ev)
     [] ev.ev = "E" -> EMonEncode(m, ev)
     [] ev.ev = "ES" -> EMonSweep(m, ev)
-    [] ev.ev = "F" -> IF m.desync THEN m ELSE [EAddViols(m, <<"C08.enc-livelock">>) EXCEPT !.desync = TRUE]
+    [] ev.ev = "F" -> [EAddViols(m, <<"C08.enc-livelock">>) EXCEPT !.desync = TRUE]
+    [] ev.ev = "G" -> [EAddViols(m, <<"C06.fault">>) EXCEPT !.desync = TRUE]
     [] OTHER -> EAddViols(m, <<"proto.unknown-event">>)
 =============================================================================
